@@ -1000,6 +1000,27 @@ class Visitor(ast.NodeVisitor):
 
         return generator_expr_func(**self._name_to_value)
 
+    def _harvest_comprehension(
+        self, elts: List[ast.expr], generators: List[ast.comprehension]
+    ) -> None:
+        """
+        Visit the parts of a comprehension to collect the values which are unrelated to its targets.
+
+        Python might never evaluate these sub-expressions (*e.g.*, when nothing is iterated over or
+        when a filter is false), so a failure to re-compute one of them must not prevent us from
+        reporting the violation.
+        """
+        nodes = list(elts)  # type: List[ast.expr]
+        for generator in generators:
+            nodes.append(generator.iter)
+            nodes.extend(generator.ifs)
+
+        for node in nodes:
+            try:
+                self.visit(node)
+            except Exception:  # pylint: disable=broad-except
+                pass
+
     def visit_GeneratorExp(self, node: ast.GeneratorExp) -> Any:
         """Compile the generator expression as a function and call it."""
         # NOTE ABOUT PLACEHOLDERS AND RE-COMPUTATION:
@@ -1032,13 +1053,7 @@ class Visitor(ast.NodeVisitor):
         ):
             self._name_to_value[target_name] = PLACEHOLDER
 
-        self.visit(node.elt)
-
-        for generator in node.generators:
-            self.visit(generator.iter)
-
-            for generator_if in generator.ifs:
-                self.visit(generator_if)
+        self._harvest_comprehension(elts=[node.elt], generators=node.generators)
 
         self._name_to_value = old_name_to_value
 
@@ -1059,13 +1074,7 @@ class Visitor(ast.NodeVisitor):
         ):
             self._name_to_value[target_name] = PLACEHOLDER
 
-        self.visit(node.elt)
-
-        for generator in node.generators:
-            self.visit(generator.iter)
-
-            for generator_if in generator.ifs:
-                self.visit(generator_if)
+        self._harvest_comprehension(elts=[node.elt], generators=node.generators)
 
         self._name_to_value = old_name_to_value
 
@@ -1088,13 +1097,7 @@ class Visitor(ast.NodeVisitor):
         ):
             self._name_to_value[target_name] = PLACEHOLDER
 
-        self.visit(node.elt)
-
-        for generator in node.generators:
-            self.visit(generator.iter)
-
-            for generator_if in generator.ifs:
-                self.visit(generator_if)
+        self._harvest_comprehension(elts=[node.elt], generators=node.generators)
 
         self._name_to_value = old_name_to_value
 
@@ -1117,14 +1120,9 @@ class Visitor(ast.NodeVisitor):
         ):
             self._name_to_value[target_name] = PLACEHOLDER
 
-        self.visit(node.key)
-        self.visit(node.value)
-
-        for generator in node.generators:
-            self.visit(generator.iter)
-
-            for generator_if in generator.ifs:
-                self.visit(generator_if)
+        self._harvest_comprehension(
+            elts=[node.key, node.value], generators=node.generators
+        )
 
         self._name_to_value = old_name_to_value
 
